@@ -25,6 +25,7 @@ import EmbitModel.Driver.Cost
 import EmbitModel.Driver.LockX
 import EmbitModel.Driver.MiniscriptX
 import EmbitModel.Driver.HeapX
+import EmbitModel.Driver.HeapDeep
 import EmbitModel.Driver.LiquidX
 import EmbitModel.Driver.PyCurve
 import EmbitModel.Driver.HeapY
@@ -36,7 +37,7 @@ import EmbitModel.Driver.SecpToy
 -/
 open Embit.Driver
 
-def handlers : List (String → List String → Option String) := [handleTx, handleHash, handleSighash, handlePsbt, handleBip39, handleMiniscript, handleView, handleSigCheck, handleSign, handleAddr, handleSecp, handleSlip39, handleHeap, handleLock, handleKeys, handleDescriptor, handleLiquid, handleKeysX, handlePsbtX, handleSlip39X, handleViewX, handleSignWith, handleCost, handleLockX, handleMiniscriptX, handleHeapX, handleLiquidX, handlePyCurve, handleEcOps, handleHeapY, handlePsbtVerify, handleSignWithViewBytes, Embit.Driver.Toy.handleSecpToy]
+def handlers : List (String → List String → Option String) := [handleTx, handleHash, handleSighash, handlePsbt, handleBip39, handleMiniscript, handleView, handleSigCheck, handleSign, handleAddr, handleSecp, handleSlip39, handleHeap, handleLock, handleKeys, handleDescriptor, handleLiquid, handleKeysX, handlePsbtX, handleSlip39X, handleViewX, handleSignWith, handleCost, handleLockX, handleMiniscriptX, handleHeapX, handleLiquidX, handlePyCurve, handleEcOps, handleHeapY, handlePsbtVerify, handleSignWithViewBytes, Embit.Driver.Toy.handleSecpToy, handleHeapDeep]
 
 def dispatch (line : String) : String :=
   match (line.splitOn " ").filter (· ≠ "") with
